@@ -56,6 +56,8 @@ def ddmin_steps(schedule, want, budget):
 
 
 SIMPLE_ARGS = {
+    "relative": False,
+    "shared_dir": False,
     "r": 3.0,
     "origin": [0.0, 0.0, 0.0],
     "bounds": [[-1, -1, -1], [1, 1, 1]],
@@ -82,7 +84,7 @@ def simplify_steps(schedule, want, budget):
     for i in range(len(steps)):
         st = steps[i]
         for cand_st in (
-            {k: v for k, v in st.items() if k not in ("inject", "audit", "defer")},
+            {k: v for k, v in st.items() if k not in ("inject", "audit", "defer", "thread")},
             dict(st, h=0),
         ):
             if cand_st == st or budget[0] <= 0:
